@@ -8,6 +8,7 @@
 package mutate
 
 import (
+	"bytes"
 	"encoding/binary"
 	"encoding/hex"
 	"fmt"
@@ -437,6 +438,54 @@ func (s *Set) Pairs(sites []IntSite) {
 				for _, mb := range muts[j] {
 					s.Add("pair", Mutation{Trunc: -1, Ops: append(append([]Op{}, ma.Ops...), mb.Ops...), Note: ma.Note + " + " + mb.Note})
 				}
+			}
+		}
+	}
+}
+
+// ---- object identifiers ----
+
+// oidFamilies: DER-encoded OBJECT IDENTIFIER TLVs of registered digest and
+// signature algorithms (from the registries: RFC 3279, 4055, 5758, 8017, NIST
+// CSOR, TeleTrusT), grouped by nothing but their encoded length: replacing
+// one by another of the same length keeps the enclosing structure well-formed.
+var oidTLVs = func() [][]byte {
+	var out [][]byte
+	add := func(prefix []byte, lasts ...byte) {
+		for _, l := range lasts {
+			body := append(append([]byte{}, prefix...), l)
+			out = append(out, append([]byte{0x06, byte(len(body))}, body...))
+		}
+	}
+	add([]byte{0x2a, 0x86, 0x48, 0x86, 0xf7, 0x0d, 0x02}, 2, 4, 5)                                               // md2, md4, md5
+	add([]byte{0x2b, 0x0e, 0x03, 0x02}, 26, 29)                                                                  // sha1, sha1WithRSA (OIW)
+	add([]byte{0x2b, 0x24, 0x03, 0x02}, 1, 2, 3)                                                                 // ripemd160, ripemd128, ripemd256
+	add([]byte{0x60, 0x86, 0x48, 0x01, 0x65, 0x03, 0x04, 0x02}, 1, 2, 3, 4, 5, 6, 7, 8, 9, 10, 11, 12)           // sha2, sha512/t, sha3, shake
+	add([]byte{0x2a, 0x86, 0x48, 0x86, 0xf7, 0x0d, 0x01, 0x01}, 1, 2, 3, 4, 5, 7, 8, 10, 11, 12, 13, 14, 15, 16) // rsa family
+	add([]byte{0x2a, 0x86, 0x48, 0xce, 0x3d, 0x04}, 1)                                                           // ecdsa-with-sha1
+	add([]byte{0x2a, 0x86, 0x48, 0xce, 0x3d, 0x04, 0x03}, 1, 2, 3, 4)                                            // ecdsa-with-sha2
+	add([]byte{0x2a, 0x86, 0x48, 0xce, 0x3d, 0x02}, 1)                                                           // id-ecPublicKey
+	add([]byte{0x2a, 0x86, 0x48, 0xce, 0x38, 0x04}, 1, 3)                                                        // dsa
+	add([]byte{0x60, 0x86, 0x48, 0x01, 0x65, 0x03, 0x04, 0x03}, 1, 2, 3, 4, 9, 10, 11, 12, 13, 14, 15, 16)       // dsa/ecdsa/rsa with sha2/sha3
+	return out
+}()
+
+// OIDs adds, for every occurrence of a registered algorithm OID in the seed,
+// its replacement by every other registered OID of the same encoded length.
+func (s *Set) OIDs() {
+	for _, from := range oidTLVs {
+		for off := 0; ; {
+			i := bytes.Index(s.seed[off:], from)
+			if i < 0 {
+				break
+			}
+			at := off + i
+			off = at + 1
+			for _, to := range oidTLVs {
+				if len(to) != len(from) || bytes.Equal(to, from) {
+					continue
+				}
+				s.Add("oid", Mutation{Trunc: -1, Ops: []Op{{Off: at, New: append([]byte{}, to...)}}, Note: fmt.Sprintf("oid@%d %x->%x", at, from[2:], to[2:])})
 			}
 		}
 	}
